@@ -35,7 +35,7 @@ func c02Safety(sc pairScenario, ha, hb *refHandler) []string {
 
 func runC02(ctx *Ctx) error {
 	r, res := ctx.Rng, ctx.Res
-	res.Rule = "scenarios: message sets both ways with accept/reject/defer policies. For each scenario a clean run gives the byte counts; then every cut position k in each direction (quick: stride plus all positions within 12 bytes of the end and of each EOT/turn boundary; thorough: every position) is replayed with two real sessions: the receiver gets exactly k bytes, then both ends see EOF. Also: ProcessInbound failing at a chosen inbound message; histories of several faulty sessions followed by a clean one on persistent handlers (reference handler with de-duplication, and the real directory mailbox). Oracle: both Exchange calls return (watchdog), 'reported sent => completely received, byte-identical', convergence 'delivered exactly once and reported sent'. Correspondence: the side that sees exactly k bytes vs the model side on that prefix. Non-trivial: cut inside a message transfer or after it; distinct by (scenario, direction, k)."
+	res.Rule = "scenarios: message sets both ways with accept/reject/defer policies. For each scenario a clean run gives the byte counts; then every cut position k in each direction (quick: stride plus all positions within 12 bytes of the end and of each EOT/turn boundary; thorough: every position) is replayed with two real sessions: the receiver gets exactly k bytes, then both ends see EOF. Also: ProcessInbound failing at a chosen inbound message; histories of several faulty sessions followed by a clean one on persistent handlers (reference handler with de-duplication, and the real directory mailbox). Oracle: both Exchange calls return (watchdog), 'reported sent => completely received, byte-identical', convergence 'delivered exactly once and reported sent'. Correspondence: the side that sees exactly k bytes vs the model side on that prefix. Non-trivial: cut inside a message transfer or after it; distinct by (scenario, direction, k). In a quarter of the directory-mailbox histories one complete session runs while the receiver's disk refuses one message (the store fails inside the real DirHandler)."
 	var lines, impl []string
 	var cases []interface{}
 	nsc := ctx.N(6, 40)
@@ -215,12 +215,14 @@ func runC02(ctx *Ctx) error {
 		mb.Prepare()
 		callA, callB := r.Callsign(), r.Callsign()
 		queued := map[string][]byte{}
+		var midsA []string
 		for k := 1 + r.Intn(3); k > 0; k-- {
 			m := r.Message(callA, r.Mid())
 			m.Header.Del("Cc")
 			m.Header.Set("To", callB)
 			ma.AddOut(m)
 			queued[m.MID()], _ = m.Bytes()
+			midsA = append(midsA, m.MID())
 		}
 		for k := r.Intn(2); k > 0; k-- {
 			m := r.Message(callB, r.Mid())
@@ -292,6 +294,28 @@ func runC02(ctx *Ctx) error {
 			ctx.Mark(map[string]interface{}{"dir_history": di, "cuts": cuts})
 			sess(ca, cb)
 			check("faulty")
+		}
+		if di%4 == 1 && len(midsA) > 0 {
+			// a complete session in which B's disk refuses one message: the place of its temporary
+			// file is taken by a non-empty directory, so the store fails inside the real DirHandler
+			pending, _ := filepath.Glob(filepath.Join(da, "out", "*.b2f"))
+			if len(pending) == 0 {
+				// everything went through already: queue one more message
+				m := r.Message(callA, r.Mid())
+				m.Header.Del("Cc")
+				m.Header.Set("To", callB)
+				mailbox.NewDirHandler(da, false).AddOut(m)
+				queued[m.MID()], _ = m.Bytes()
+				pending = []string{filepath.Join(da, "out", m.MID()+".b2f")}
+			}
+			victim := strings.TrimSuffix(filepath.Base(pending[r.Intn(len(pending))]), ".b2f")
+			blocked := filepath.Join(db, "in", "."+victim+".b2f.tmp")
+			os.MkdirAll(filepath.Join(blocked, "x"), 0o755)
+			cuts = append(cuts, "B-disk-refuses-one-message")
+			ctx.Mark(map[string]interface{}{"dir_history": di, "cuts": cuts})
+			sess(-1, -1)
+			check("storage-failure")
+			os.RemoveAll(blocked)
 		}
 		if di%3 != 1 {
 			// a complete session in which B defers everything it is offered
